@@ -114,6 +114,33 @@ extern "C" void harness_c09_value()
         verif_known_end();
     VERIF_END();
 }
+// multinomial path (powers >= 3 of a sum): a bare symbol next to products containing it, unit coefficients, all real x, y, z
+extern "C" void harness_c09_multinomial()
+{
+    ve::Env env;
+    double xv = verif_real("x"), yv = verif_real("y"), zv = verif_real("z");
+    env.val["x"] = xv;
+    env.val["y"] = yv;
+    env.val["z"] = zv;
+    RCP<const Basic> Z = symbol("z");
+    RCP<const Basic> terms[] = {X(), Z, mul(X(), Z), mul(Y(), Z), mul(X(), Y()), Y()};
+    double tv[] = {xv, zv, xv * zv, yv * zv, xv * yv, yv};
+    unsigned mask = 3 + (unsigned)verif_choice("mask", 61); // 3..63
+    verif_assume((mask & (mask - 1)) != 0);                 // at least two terms
+    RCP<const Basic> sum = zero;
+    double sv = 0.0;
+    for (int i = 0; i < 6; i++)
+        if (mask & (1u << i)) {
+            sum = add(sum, terms[i]);
+            sv = sv + tv[i];
+        }
+    int k = 3 + (int)verif_choice("k", verif_param("kn", 1));
+    RCP<const Basic> e = pow(sum, integer(k)), r = expand(e);
+    verif_assert_req(ve::ev(*r, env), ve::ipow(sv, k), "expand(sum**k) has the value of sum**k");
+    verif_assert(expanded(*r), "expand(e) contains no product or positive power of a sum");
+    verif_assert(eq(*expand(mul(expand(pow(sum, integer(k - 1))), sum)), *r), "expand(s**k) == expand(expand(s**(k-1)) * s)");
+    VERIF_END();
+}
 // identity decision: (a x + b)(c x + d) against e x^2 + f x + g with symbolic integer coefficients
 extern "C" void harness_c09_identity()
 {
